@@ -186,3 +186,34 @@ Definition events_branch_wf (f : fn_def) : bool :=
 
 Lemma reloader_leaves_when_events_are_over : events_branch_wf hot_reloading_thread = true.
 Proof. vm_compute. reflexivity. Qed.
+
+(* EventSender::send_multiple: only an iterator that is KNOWN to be empty (size_hint upper bound 0)
+   returns without touching the channel; anything else is sent -- an empty batch included, which is
+   how a watcher whose events name no asset still learns that its reloader is gone; a failed send
+   is reported as Disconnected *)
+Definition send_multiple_wf (f : fn_def) : bool :=
+  match fn_body f with
+  | [ELetS (PIdent "events" None) (Some (EMethod (EPath ["events"]) "into_iter" [])) None;
+     ELetS (PIdent "event" None)
+       (Some (EMatch (EField (EMethod (EPath ["events"]) "size_hint" []) "1")
+          [(PTupleStruct ["Some"] [PLit (LInt 0%N)], None, EReturn (Some (ECall (EPath ["Ok"]) [ELit (LInt 0%N)])));
+           (PTupleStruct ["Some"] [PLit (LInt 1%N)], None,
+            EMatch (EMethod (EPath ["events"]) "next" [])
+              [(PTupleStruct ["Some"] [PIdent e None], None, ECall (EPath ["Events"; "Single"]) [EPath [e']]);
+               (PIdent "None" None, None, EReturn (Some (ECall (EPath ["Ok"]) [ELit (LInt 0%N)])))]);
+           (PWild, None, ECall (EPath ["Events"; "Multiple"]) [EMethod (EPath ["events"]) "collect" []])])) None;
+     ELetS (PIdent "len" None) _ None;
+     EMatch (EMethod (EField (EPath ["self"]) "0") "send" [EPath ["event"]])
+       [(PTupleStruct ["Ok"] [PTuple []], None, ECall (EPath ["Ok"]) [EPath ["len"]]);
+        (PTupleStruct ["Err"] [PWild], None, ECall (EPath ["Err"]) [EPath ["Disconnected"]])]] => String.eqb e e'
+  | _ => false
+  end.
+Definition send_wf (f : fn_def) : bool :=
+  match fn_body f with
+  | [EMethod (EMethod (EField (EPath ["self"]) "0") "send" [ECall (EPath ["Events"; "Single"]) [EPath ["event"]]]) "or"
+       [ECall (EPath ["Err"]) [EPath ["Disconnected"]]]] => true
+  | _ => false
+  end.
+Lemma senders_learn_about_a_gone_reloader :
+  send_multiple_wf EventSender_send_multiple = true /\ send_wf EventSender_send = true.
+Proof. vm_compute. split; reflexivity. Qed.
